@@ -524,6 +524,25 @@ int main(int argc, char ** argv) {
             ++g_cases;
         }
         summary({{"events", g_cases}});
+    } else if (mode == "gen6") {   // gen6 <seed> <n> <dir>: files of catalogue type 6 (affine<linear<strided<size3, array<float3>>>>) with random extents
+        rng r(std::strtoull(argv[2], nullptr, 10));
+        long n = std::atol(argv[3]);
+        using core_f = cb::strided<sz<3>, arr<float, 3>>;
+        using B = cb::affine<cb::linear<core_f>>;
+        for (long q = 0; q < n; ++q) {
+            std::size_t e0 = 1 + r.below(6), e1 = 1 + r.below(6), e2 = 1 + r.below(6);
+            auto a = covfie::algebra::affine<3>::scaling(0.5f, 2.f, 0.25f) * covfie::algebra::affine<3>::translation((float)r.below(9), -(float)r.below(5), 1.f);
+            covfie::field<B> f(covfie::make_parameter_pack(typename B::configuration_t(a), std::monostate{}, typename core_f::configuration_t{e0, e1, e2}));
+            with_array<B>(f.backend(), [&](auto tag, const auto & o) {
+                using AB = typename decltype(tag)::type;
+                typename AB::non_owning_data_t v(o);
+                for (std::size_t k = 0; k < e0 * e1 * e2 * 3; ++k) v.at(k / 3)[k % 3] = pattern(k * 7 + (std::size_t)q * 1000003);
+            });
+            std::ofstream os(std::string(argv[4]) + "/in" + std::to_string(q) + ".cvfield", std::ios::binary);
+            f.dump(os);
+            ++g_cases;
+        }
+        summary();
     } else if (mode == "huge") {   // huge <seed> <out> [thorough]
         rng r(std::strtoull(argv[2], nullptr, 10));
         std::ofstream out(argv[3]);
